@@ -94,8 +94,14 @@ STR_SUBCLASS_KEYED: List[str] = [
 ]
 
 
+# string keys that cannot be written as field names of a class (not identifiers, keywords, empty)
+NON_IDENTIFIER_KEYED: List[str] = [
+    "{'content-type': 0}", "{'from': 0, 'a': 'a'}", "{'': 0}", "[{'1x': 0}]", "{'a': {'not-ok': 0}}", "{'a b': 0, 'class': None}", "defaultdict(int, {'x-y': 0})",
+]
+
+
 def depth1() -> List[str]:
-    return list(ATOMS) + containers(ATOMS, REPS, REPS3) + STR_SUBCLASS_KEYED
+    return list(ATOMS) + containers(ATOMS, REPS, REPS3) + STR_SUBCLASS_KEYED + NON_IDENTIFIER_KEYED
 
 
 # representatives of depth-1 shapes (one per shrink/get_type arm seam) used as elements at depth 2
